@@ -278,14 +278,9 @@ Definition same_static (x l : layer) : Prop :=
 Definition flags_known (c : cfgT) (tab : list kline) (um : users_map) (x l : layer) : Prop :=
   l_kmounts l = kmounts0 tab (build_path c x)
   /\ l_mbusy l = mb0 c (users_of um (l_name x)) /\ l_nmbusy l = nb0 c (users_of um (l_name x)).
-Definition flags_blank (l : layer) : Prop :=
-  l_state l = st_error /\ l_kmounts l = [] /\ l_mbusy l = false /\ l_nmbusy l = false.
-
 Definition probed (c : cfgT) (tab : list kline) (um : users_map) (S : list bytes) (x l : layer) : Prop :=
   same_static x l /\ l_overlain l = overlain0 tab (build_path c x)
-  /\ (l_state x = st_error -> flags_blank l)
-  /\ (l_state x <> st_error ->
-      (In (l_name x) S -> flags_known c tab um x l) /\ (~ In (l_name x) S -> l_state l <> st_error)).
+  /\ (In (l_name x) S -> flags_known c tab um x l).
 
 Lemma probed_name c tab um S x l : probed c tab um S x l -> l_name l = l_name x.
 Proof. intros [[H _] _]. exact H. Qed.
@@ -302,12 +297,11 @@ Qed.
 
 Lemma probed_add_other c tab um S n x l : l_name x <> n -> probed c tab um S x l -> probed c tab um (n :: S) x l.
 Proof.
-  intros Hn (Hs & Ho & He & Hne). split; [exact Hs|]. split; [exact Ho|]. split; [exact He|].
-  intros Hx. destruct (Hne Hx) as [A B]. split.
-  - intros [E|Hin]; [congruence|auto].
-  - intros Hnot. apply B. intros Hin. apply Hnot. now right.
+  intros Hn (Hs & Ho & Hk). split; [exact Hs|]. split; [exact Ho|].
+  intros [E|Hin]; [congruence|auto].
 Qed.
 
+(* every layer, in error state or not, gets its users classified and its mounts collected *)
 Lemma probe_layer_inv c f um tab S m M o n :
   NoDup (map l_name m) -> Forall2 (probed c tab um S) m M ->
   let ld' := probe_layer c f um (MkLD M o (view tab)) n in
@@ -324,50 +318,31 @@ Proof.
       - apply probed_add_other; [apply Hall; now left|exact Hxy].
       - apply IH. intros z Hz. apply Hall. now right. }
   destruct (lm_get_name _ _ _ Eg) as [Hln _].
-  destruct (l_state l =? st_error) eqn:Est.
-  - cbn. split; [|auto]. apply N.eqb_eq in Est.
-    rewrite <- (lm_set_same M l) by (now rewrite Hln).
-    eapply forall2_lm_set; eauto using probed_name, probed_add_other.
-    intros x Hx (Hs & Ho & He & Hne). split; [exact Hs|]. split; [exact Ho|]. split; [exact He|].
-    intros Hxe. destruct (Hne Hxe) as [A B]. split.
-    + intros _. apply A. destruct (memb (l_name x) S) eqn:Em; [now apply memb_In|].
-      apply memb_false in Em. specialize (B Em). contradiction.
-    + intros Hnot. exfalso. apply Hnot. now left.
-  - apply N.eqb_neq in Est.
-    set (l1 := classify_users c l (users_of um n)).
-    set (l2 := set_kmounts l1 (mounts_at_or_below (view tab) (build_path c l1))).
-    match goal with |- context [lm_set M ?L] => set (l' := L) end.
-    assert (Hf : lfields l' = lfields l2).
-    { unfold l'. destruct (negb (is_dir f (build_path c l2))); [reflexivity|].
-      destruct (_ && _); [reflexivity|]. rewrite find_layerstate_fields. reflexivity. }
-    unfold lfields in Hf.
-    injection Hf as F1 F2 F3 F4 F5 F6 F7 F8 F9 F10.
-    change (l_name l2) with (l_name l) in F1. change (l_base l2) with (l_base l) in F2.
-    change (l_mounts l2) with (l_mounts l) in F3. change (l_exports l2) with (l_exports l) in F4.
-    change (l_path l2) with (l_path l) in F5.
-    change (l_mbusy l2) with (mb0 c (users_of um n)) in F6.
-    change (l_nmbusy l2) with (nb0 c (users_of um n)) in F7.
-    change (l_overlain l2) with (l_overlain l) in F8.
-    change (l_kmounts l2) with (mounts_at_or_below (view tab) (build_path c l)) in F10.
-    cbn [ld_map ld_order ld_probe]. split; [|auto].
-    eapply forall2_lm_set; eauto using probed_name, probed_add_other.
-    { now rewrite F1. }
-    intros x Hx ((S1 & S2 & S3 & S4 & S5) & Ho & He & Hne).
-    split. { unfold same_static. rewrite F1, F2, F5, F3, F4. auto. }
-    split. { now rewrite F8. }
-    split. { intros Hxe. destruct (He Hxe) as [E _]. contradiction. }
-    intros Hxe. split.
-    + intros _. unfold flags_known. rewrite F10, F6, F7. rewrite mounts_view.
-      change (build_path c l1) with (build_path c l).
-      rewrite (build_path_static c x l S3). rewrite Hx. unfold mb0, nb0, dirs3. cbn [existsb]. auto.
-    + intros Hnot. exfalso. apply Hnot. now left.
-Qed.
-
-Lemma probed_equiv c tab um S S' x l : (forall n, In n S <-> In n S') ->
-  probed c tab um S x l -> probed c tab um S' x l.
-Proof.
-  intros H (Hs & Ho & He & Hne). split; [exact Hs|]. split; [exact Ho|]. split; [exact He|].
-  intros Hx. destruct (Hne Hx) as [A B]. split; intros K; [apply A|apply B]; now rewrite H.
+  set (l1 := classify_users c l (users_of um n)).
+  set (l2 := set_kmounts l1 (mounts_at_or_below (view tab) (build_path c l1))).
+  match goal with |- context [lm_set M ?L] => set (l' := L) end.
+  assert (Hf : lfields l' = lfields l2).
+  { unfold l'. destruct (l_state l2 =? st_error); [reflexivity|].
+    destruct (negb (is_dir f (build_path c l2))); [reflexivity|].
+    destruct (_ && _); [reflexivity|]. rewrite find_layerstate_fields. reflexivity. }
+  unfold lfields in Hf.
+  injection Hf as F1 F2 F3 F4 F5 F6 F7 F8 F9 F10.
+  change (l_name l2) with (l_name l) in F1. change (l_base l2) with (l_base l) in F2.
+  change (l_mounts l2) with (l_mounts l) in F3. change (l_exports l2) with (l_exports l) in F4.
+  change (l_path l2) with (l_path l) in F5.
+  change (l_mbusy l2) with (mb0 c (users_of um n)) in F6.
+  change (l_nmbusy l2) with (nb0 c (users_of um n)) in F7.
+  change (l_overlain l2) with (l_overlain l) in F8.
+  change (l_kmounts l2) with (mounts_at_or_below (view tab) (build_path c l)) in F10.
+  cbn [ld_map ld_order ld_probe]. split; [|auto].
+  eapply forall2_lm_set; eauto using probed_name, probed_add_other.
+  { now rewrite F1. }
+  intros x Hx ((S1 & S2 & S3 & S4 & S5) & Ho & Hk).
+  split. { unfold same_static. rewrite F1, F2, F5, F3, F4. auto. }
+  split. { now rewrite F8. }
+  intros _. unfold flags_known. rewrite F10, F6, F7. rewrite mounts_view.
+  change (build_path c l1) with (build_path c l).
+  rewrite (build_path_static c x l S3). rewrite Hx. unfold mb0, nb0, dirs3. cbn [existsb]. auto.
 Qed.
 
 Lemma probe_fold_inv c f um tab m : NoDup (map l_name m) -> forall o S M o0,
@@ -386,9 +361,7 @@ Qed.
 
 (* what get_layers knows about a layer on disk *)
 Definition known (c : cfgT) (tab : list kline) (um : users_map) (x l : layer) : Prop :=
-  same_static x l /\ l_overlain l = overlain0 tab (build_path c x)
-  /\ (l_state x = st_error -> flags_blank l)
-  /\ (l_state x <> st_error -> flags_known c tab um x l).
+  same_static x l /\ l_overlain l = overlain0 tab (build_path c x) /\ flags_known c tab um x l.
 
 Lemma known_name c tab um x l : known c tab um x l -> l_name l = l_name x.
 Proof. intros [[H _] _]. exact H. Qed.
@@ -409,13 +382,11 @@ Proof.
   intros ND Hfresh Hall. unfold probe_pure, refresh_pure. cbn [ld_map ld_order].
   assert (H0 : Forall2 (probed c tab um []) m (map (fun l => set_overlain l (overlain0 tab (build_path c l))) m)).
   { clear -Hfresh. induction Hfresh as [|x m Hx _ IH]; cbn [map]; constructor; [|exact IH].
-    destruct Hx as (K1 & K2 & K3 & K4 & _). split; [repeat split|]. split; [reflexivity|].
-    split. { intros E. repeat split; assumption. }
-    intros E. split; [intros []|]. intros _. exact E. }
+    split; [repeat split|]. split; [reflexivity|]. intros []. }
   destruct (probe_fold_inv c f um tab m ND o [] _ o H0) as (K1 & K2 & K3). split; [|auto].
-  eapply forall2_impl_in; [exact K1|]. intros x l Hx (Hs & Ho & He & Hne).
-  split; [exact Hs|]. split; [exact Ho|]. split; [exact He|]. intros Hxe.
-  apply (Hne Hxe). apply in_or_app. left. rewrite <- in_rev. now apply Hall.
+  eapply forall2_impl_in; [exact K1|]. intros x l Hx (Hs & Ho & Hk).
+  split; [exact Hs|]. split; [exact Ho|].
+  apply Hk. apply in_or_app. left. rewrite <- in_rev. now apply Hall.
 Qed.
 
 (* ------------------------------------------------------------------ layer names are not empty *)
